@@ -760,6 +760,13 @@ func (w *World) staticType(e Expr, fn *ssa.Function) types.Type {
 				return p.Type()
 			}
 		}
+		if base := baselineParams[funcKey(fn)]; len(base) == len(fn.Params) {
+			for i, bn := range base {
+				if bn == x.Name {
+					return fn.Params[i].Type()
+				}
+			}
+		}
 		if x.Name == "recv" && fn.Signature.Recv() != nil && len(fn.Params) > 0 {
 			return fn.Params[0].Type()
 		}
